@@ -41,16 +41,37 @@ Definition obs_eqb (a b : obs) : bool :=
   | _, _ => false
   end.
 
+(* On a scope that does not denote a mapping (some mapping expression cannot be evaluated) the property says
+   nothing about WHICH calls raise; there the model and the implementation only have to agree whenever both
+   return a value (otherwise a harmless change of evaluation order / laziness would be reported). *)
+Definition is_ok {A} (r : result A) : bool := match r with Ok _ => true | Err _ => false end.
+
+Definition obs_compat (a b : obs) : bool :=
+  match a, b with
+  | BVal (Ok _), BVal (Ok _) | BKeys (Ok _), BKeys (Ok _) | BLen (Ok _), BLen (Ok _)
+  | BItems (Ok _), BItems (Ok _) => obs_eqb a b
+  | BVal _, BVal _ | BKeys _, BKeys _ | BLen _, BLen _ | BItems _, BItems _ => true
+  | _, _ => obs_eqb a b
+  end.
+
+Fixpoint corr_run (s : scope) (ops : list op) (model impl : list obs) : bool :=
+  match ops, model, impl with
+  | [], [], [] => true
+  | o :: ops', a :: model', b :: impl' =>
+      (if is_ok (denote_scope s) then obs_eqb a b else obs_compat a b)
+      && corr_run (match o with OChange nc => rebuild s nc | _ => s end) ops' model' impl'
+  | _, _, _ => false
+  end.
+
 Definition check_corr (c : case) : bool :=
   match c with
   | CHist s ops impl =>
-      list_eqb obs_eqb (run (s, cempty) ops) impl       (* the model with memoisation fields as state *)
-      && list_eqb obs_eqb (prun s ops) impl             (* the same access paths without any memoisation *)
+      corr_run s ops (run (s, cempty) ops) impl       (* the model with memoisation fields as state *)
+      && corr_run s ops (prun s ops) impl             (* the same access paths without any memoisation *)
   | CCrash => false
   end.
 
 (* ---- the specification oracle *)
-Definition is_ok {A} (r : result A) : bool := match r with Ok _ => true | Err _ => false end.
 
 (* all names that can matter for the volatile comparison *)
 Fixpoint names_of (s : scope) : list ident :=
